@@ -36,7 +36,12 @@ pub enum Ev {
     Rename { i: usize, name: String },
     BookInsertRow { i: usize, row: u32, n: u32 },
     BookRemoveCol { i: usize, col: u32, n: u32 },
-    Save { light: bool },
+    Save {
+        light: bool,
+        /// the bytes just written are opened lazily again and the history goes on with that workbook
+        #[serde(default)]
+        reopen: bool,
+    },
 }
 
 /// S2 source: Read + Seek over a byte vector with seeded short reads. Never lies about content.
@@ -178,7 +183,8 @@ pub fn execute(case: &Value, _scratch: &str) -> Outcome {
     let chunk = case["chunk"].as_u64().unwrap_or(0) as usize;
     let chunk_seed = get_u64(case, "chunk_seed");
     let src_kind = case["source"]["kind"].as_str().unwrap_or("generated").to_string();
-    let generated = src_kind == "generated";
+    let mut generated = src_kind == "generated";
+    let mut generations = 0u64;
 
     // eager twin and the original eager dump
     let twin0 = guarded(|| world::load_mem(&bytes, true));
@@ -193,7 +199,7 @@ pub fn execute(case: &Value, _scratch: &str) -> Outcome {
             return out;
         }
     };
-    let orig_dump: Vec<Value> = twin.get_sheet_collection_no_check().iter().map(world::dump_sheet_deep).collect();
+    let mut orig_dump: Vec<Value> = twin.get_sheet_collection_no_check().iter().map(world::dump_sheet_deep).collect();
     let mut src = SimSource::new(bytes.clone(), chunk_seed, chunk);
     let lazy0 = guarded(|| umya::reader::xlsx::read_reader(&mut src, false));
     let mut lazy = match lazy0 {
@@ -444,7 +450,7 @@ pub fn execute(case: &Value, _scratch: &str) -> Outcome {
                         check_sheet(&lazy, &twin, j, &mut out, "book_remove_col");
                     }
                 }
-                Ev::Save { light } => {
+                Ev::Save { light, reopen } => {
                     saves += 1;
                     sig.push('S');
                     let nraw = track.iter().filter(|t| !t.materialised).count();
@@ -578,6 +584,30 @@ pub fn execute(case: &Value, _scratch: &str) -> Outcome {
                     if wl["defined_names"] != wt["defined_names"] || wl["active"] != wt["active"] {
                         out.violate(Verdict::new("C11", "C11:content-differs", &[("what", "workbook"), ("raw_sheets", rawf)], format!("step {}: defined names / active tab differ from the eager twin after save+reload", k)));
                     }
+                    // next generation: the file just written is the source now, opened lazily (and eagerly for
+                    // the twin); a partial save must be as good a source as the file it was made from
+                    if *reopen && out.verdicts.is_empty() {
+                        let mut src2 = SimSource::new(lb.clone(), chunk_seed ^ (k as u64 + 1), chunk);
+                        match guarded(|| umya::reader::xlsx::read_reader(&mut src2, false)) {
+                            Ok(Ok(b)) => {
+                                lazy = b;
+                                twin = l2;
+                                orig_dump = twin.get_sheet_collection_no_check().iter().map(world::dump_sheet_deep).collect();
+                                track = (0..twin.get_sheet_count()).map(|i| SheetTrack { orig: Some(i), edited: false, materialised: false }).collect();
+                                structural_while_raw = false;
+                                // the model comparison is stated for the generated source itself
+                                generated = false;
+                                generations += 1;
+                                sig.push('G');
+                            }
+                            Ok(Err(e)) => {
+                                out.violate(Verdict::new("C11", "C11:lazy-open-fails", &[("source", "own-save"), ("raw_sheets", rawf)], format!("step {}: the file saved from the lazy workbook cannot be opened lazily (eager loading succeeds): {:?}", k, e)));
+                            }
+                            Err(p) => {
+                                out.violate(Verdict::new("C11", "C11:lazy-open-fails", &[("source", "own-save"), ("raw_sheets", rawf)], format!("step {}: opening the file saved from the lazy workbook lazily panics (eager loading succeeds): {}", k, p)));
+                            }
+                        }
+                    }
                 }
             }
         });
@@ -599,6 +629,9 @@ pub fn execute(case: &Value, _scratch: &str) -> Outcome {
     }
     out.step("events", events.len() as u64);
     out.step("saves", saves);
+    if generations > 0 {
+        out.probe_n("lazy_generations_after_own_save", generations);
+    }
     if raw_at_save > 0 {
         out.probe("saved_with_raw_sheets");
     }
@@ -640,7 +673,7 @@ fn apply_event_eager(b: &mut umya::Spreadsheet, ev: &Ev) {
         Ev::BookRemoveCol { i, col, n: c } => {
             world::apply(b, &Op::BookRemoveCol { sheet: *i, col: *col, n: *c });
         }
-        Ev::Save { light } => {
+        Ev::Save { light, .. } => {
             let _ = world::save_mem(b, *light);
         }
         _ => {}
@@ -819,11 +852,11 @@ pub fn cases(run_seed: u64, tier: &str, _scratch: &str) -> Vec<Value> {
                 12 => Ev::BookInsertRow { i, row: 1 + sc.below(4) as u32, n: 1 + sc.below(2) as u32 },
                 13 => Ev::BookRemoveCol { i, col: 1 + sc.below(4) as u32, n: 1 },
                 15 => Ev::CloneReadAll,
-                _ => Ev::Save { light: sc.chance(1, 4) },
+                _ => Ev::Save { light: sc.chance(1, 4), reopen: false },
             };
             evs.push(e);
         }
-        evs.push(Ev::Save { light: false });
+        evs.push(Ev::Save { light: false, reopen: false });
         let mut c = new_case("C11", crate::rng::mix(run_seed, hno as u64));
         c["source"] = source.clone();
         c["events"] = serde_json::to_value(&evs).unwrap();
@@ -847,7 +880,7 @@ pub fn cases(run_seed: u64, tier: &str, _scratch: &str) -> Vec<Value> {
             // positions shift with every removal: from the back, so that each index still means the same sheet
             evs.reverse();
         }
-        evs.push(Ev::Save { light: false });
+        evs.push(Ev::Save { light: false, reopen: false });
         let mut c = new_case("C11", crate::rng::mix(run_seed, 1000 + k as u64));
         c["source"] = source.clone();
         c["events"] = serde_json::to_value(&evs).unwrap();
@@ -855,6 +888,38 @@ pub fn cases(run_seed: u64, tier: &str, _scratch: &str) -> Vec<Value> {
         c["chunk_seed"] = hex64(sc.next_u64());
         c["sweep"] = json!(true);
         out.push(c);
+    }
+    // generations: a partial save (some sheets still raw) is itself opened lazily, touched on another subset of
+    // sheets and saved again - ids and part names handed out in one generation meet the ones copied with raw
+    // sheets in the next. Drawn from a stream of their own, so that the cases above do not depend on them.
+    if !big {
+        let mut rg = Rng::stream(run_seed, "generations");
+        let n_gen = if tier == "thorough" { 8 } else { 4 };
+        let cfg = world::GenCfg { sheets: nsheets, ncells: 6, alpha: rg.usize(4), w: [4, 1, 1, 1, 1, 1, 2, 2, 1, 1, 0, 4, 0] };
+        for g in 0..n_gen {
+            let mut evs = Vec::new();
+            let rounds = 2 + rg.usize(2);
+            for r in 0..rounds {
+                for k in 0..rg.usize(4) {
+                    let i = rg.usize(nsheets + 1);
+                    evs.push(match rg.below(6) {
+                        0 => Ev::ReadSheet { i },
+                        1 => Ev::GetSheetMut { i },
+                        2 if generated => Ev::NewSheet { name: format!("Gen{}_{}_{}", g, r, k) },
+                        3 if rg.chance(1, 3) => Ev::RemoveSheet { i, by_name: false },
+                        _ => Ev::Edit { op: world::gen_cell_op(&mut rg, &cfg, &format!("q{}.{}.{}", g, r, k)) },
+                    });
+                }
+                evs.push(Ev::Save { light: rg.chance(1, 5), reopen: r + 1 < rounds });
+            }
+            let mut c = new_case("C11", crate::rng::mix(run_seed, 2000 + g as u64));
+            c["source"] = source.clone();
+            c["events"] = serde_json::to_value(&evs).unwrap();
+            c["chunk"] = json!([0u64, 0, 7, 4096][rg.usize(4)]);
+            c["chunk_seed"] = hex64(rg.next_u64());
+            c["generations"] = json!(true);
+            out.push(c);
+        }
     }
     out
 }
